@@ -113,23 +113,26 @@ Theorem C16_stale_ack : forall s i e q,
 Proof. exact stale_deliver_ack. Qed.
 Print Assumptions C16_stale_ack.
 
-(* ---- the acknowledgement counter.  Full statement: it never goes negative.  False: an ack that is
-   handled after the listener's time-out (handleHotRestartAck compares the epoch only). *)
-Definition C16_ack_full : Prop := forall n evs, 0 <= l_ack (lis (run evs (init n))).
-Theorem C16_ack_refuted : ~ C16_ack_full.
-Proof. exact ack_refuted. Qed.
-Print Assumptions C16_ack_refuted.
-
-(* holds for the histories in which every ack carrying the listener's epoch is handled while the
-   listener is in hotRestartState, on a session that is in the table and waiting; then also: outside
-   hotRestartState (in particular when the checker declared the restart done) no session in the
-   table is still waiting for its ack *)
-Theorem C16_ack_partial_timely : forall n evs, run_timely evs (init n) ->
+(* ---- the acknowledgement counter (after the repair of handleHotRestartAck: an ack counts only in
+   hotRestartState, for the epoch in progress, on a session still waiting).  For ALL histories: never
+   negative; it covers every session in the table still waiting; outside hotRestartState no session in
+   the table is still waiting.  (Before the repair this was refuted by an ack handled after the
+   listener's time-out; that history is the regression scenario "lateack" of the harness.) *)
+Theorem C16_ack_full : forall n evs,
   let s := run evs (init n) in
   0 <= l_ack (lis s) /\ count_hr (l_sess (lis s)) <= l_ack (lis s) /\
   (l_state (lis s) <> st_hr -> count_hr (l_sess (lis s)) = 0).
-Proof. exact ack_partial. Qed.
-Print Assumptions C16_ack_partial_timely.
+Proof. exact ack_full. Qed.
+Print Assumptions C16_ack_full.
+
+Theorem C16_late_ack_ignored : forall l i e, l_state l <> st_hr -> lis_on_ack l i e = l.
+Proof. exact late_ack_ignored. Qed.
+Print Assumptions C16_late_ack_ignored.
+
+Theorem C16_repeated_ack_ignored : forall l i e x, nth_error (l_sess l) i = Some x -> ls_state x <> st_hr ->
+  lis_on_ack l i e = l.
+Proof. exact repeated_ack_ignored. Qed.
+Print Assumptions C16_repeated_ack_ignored.
 
 (* ---- non-vacuity: 3 sessions, events delivered out of order, traffic probes, everything succeeds *)
 Example C16_example_happy :
@@ -143,11 +146,11 @@ Example C16_example_happy :
 Proof. vm_compute. repeat split. Qed.
 
 (* one dial fails: the manager times out, drops the parked pools, the listener times out; a late ack
-   then makes the counter negative *)
+   is ignored *)
 Example C16_example_failure :
   let s := run [ServerHotRestart 9; DeliverRestart 0 true; DeliverRestart 1 false; ManagerTick; ManagerTimeout;
                 ListenerTick; ListenerTimeout] (init 2) in
   l_state (lis s) = st_default /\ m_state (mgr s) = st_default /\ l_ack (lis s) = 0 /\
   map cs_epoch (m_pools (mgr s)) = [9; 0] /\ count_some (m_reserve (mgr s)) = 0%nat /\
-  l_ack (lis (run late_ack_history (init 1))) = -1.
+  l_ack (lis (run late_ack_history (init 1))) = 0.
 Proof. vm_compute. repeat split. Qed.
